@@ -1583,8 +1583,11 @@ func propC02() *lib.Prop {
 				c02Case(2, 2, "send 0 ev 61 1 0", "go 0", "failckpt", "send 0 bar 1", "go 0", "send 0 ev 61 2 0", "send 1 bar 1", "go 1", "state", "go 0",
 					"send 1 bar 2", "go 1", "send 1 bar 1", "go 1", "state", "failckpt", "failnext", "redeploy", "send 0 bar 3", "go 0", "send 1 bar 3", "go 1", "state",
 					"send 0 bar 4", "go 0", "send 1 bar 4", "go 1", "state"),
-				// a caller that is no deployed runner: handled, parked while a checkpoint is aligned, never counted; its stale
-				// barrier starts a record that rejects the runners' barriers (D56); its watermark becomes an upstream entry
+				// D69 (fixed a8de76c) regression: a caller that is no deployed runner is refused — its event does not reach the
+				// handler and is not in checkpoint 1 (before the repair: S(1|61=05|))
+				lib.Case{Header: "M C02 2 1 1", Ops: []string{"send 2 ev 61 5 0", "go 2", "send 0 bar 1", "go 0", "send 2 wm 9", "send 1 bar 1", "go 1", "state"}},
+				// a caller that is no deployed runner in every role (before the repair: handled, parked while a checkpoint is
+				// aligned, its stale barrier started a record, its watermark became an upstream entry; now refused throughout)
 				lib.Case{Header: "M C02 2 1 1", Ops: []string{"send 2 ev 61 5 0", "go 2", "send 0 bar 1", "go 0", "send 2 ev 61 6 0", "state", "send 1 bar 1", "go 1", "go 2",
 					"send 2 bar 7", "go 2", "send 0 bar 2", "go 0", "send 2 wm 9", "go 2", "state", "redeploy", "state", "sendb 2 wm:2 ev:61:7:3 bar:1 done",
 					"go 2", "go 2", "go 2", "go 2", "send 0 wm 9", "go 0", "send 1 wm 9", "go 1", "tick", "state"}},
